@@ -1,4 +1,5 @@
 import MwVerif.Lemmas.Qs.Evolve
+import MwVerif.Lemmas.Qs.Inv3
 import MwVerif.Props.C16
 
 /-!
@@ -181,5 +182,12 @@ example :
     (∀ op ∈ exampleOps, op ≠ .restart) ∧
     s.counts = [(0, .timeout), (0, .timeout)] := by
   decide
+
+/-- C17 (clients waiting for a job are released when it is finished — no lost wake-up): in every
+reachable state a client blocked in `waitjobs` is blocked on a job that is still unfinished, or the
+event notification that will wake it is already scheduled on the hub. -/
+theorem c17_no_lost_wakeup {s : St} (h : Reach s) :
+    ∀ jw ∈ s.jwait, ∃ j, jw.rem.head? = some j ∧ (s.done j = true → HubEv.notifyEvent j ∈ s.hubq) :=
+  h.jw
 
 end MwVerif.Qs
